@@ -46,6 +46,15 @@ class Facts:
         r = re.compile(pattern)
         return [k for k, v in self.F.items() if r.search(v['name']) and (v.get('def') or not defined)]
 
+    @staticmethod
+    def lib_path(path):
+        """is this file part of the shipped library (not a sample / test / the command-line executable, which the thorough tier also parses)"""
+        return '/src/xalanc/' in path and '/XalanExe/' not in path and '/Tests/' not in path and '/samples/' not in path
+
+    def is_lib(self, usr):
+        f = self.F.get(usr)
+        return bool(f) and self.lib_path(f['loc'])
+
     def loc(self, k):
         return self.F[k]['loc'].replace(REPO + '/', '') if k in self.F else '?'
 
